@@ -36,6 +36,9 @@ PROGRAMS = [
     ("SELECT kind, sum(amount) AS s, count(amount) AS n FROM orders WHERE qty IS NULL GROUP BY kind", ["kind"], ["s", "n"]),
     ("SELECT sum(bal) AS b, avg(bal) AS m FROM orders", [], ["b", "m"]),
     ("SELECT kind, sum(bal) AS b FROM orders GROUP BY kind", ["kind"], ["b"]),
+    # variance / standard deviation (the DP side recombines noisy sums; either the population or the sample moment is accepted)
+    ("SELECT variance(amount) AS v FROM orders", [], ["v"]),
+    ("SELECT kind, stddev(amount) AS sd, count(amount) AS n FROM orders GROUP BY kind", ["kind"], ["sd", "n"]),
     # two public keys; a column with a range far below 1
     ("SELECT kind, flag, sum(amount) AS s, count(amount) AS n FROM orders GROUP BY kind, flag", ["kind", "flag"], ["s", "n"]),
     ("SELECT u.city AS city, o.kind AS kind, sum(o.amount) AS s FROM orders AS o JOIN users AS u ON o.user_id = u.id GROUP BY u.city, o.kind", ["city", "kind"], ["s"]),
@@ -50,7 +53,21 @@ def num(c):
     return "(to_real %s)" % c.t if c.ty == "i64" else c.t
 
 
+MOMENTS = {}   # value term of a VAR / STD cell -> dict(pop, sample, count) (filled per task from ctx.cache)
+
+
 def agg_eq(a, b):
+    m = MOMENTS.get(a.t)
+    if m is not None and b.ty in ("i64", "f64"):
+        # the data's variance / deviation: population or sample moment (the latter needs two values); no value -> NULL or 0
+        alts = [land([lnot(a.n), lnot(b.n), "(= %s %s)" % (m["pop"], num(b))]),
+                land([lnot(a.n), lnot(b.n), "(> %s 1)" % m["count"], "(= %s %s)" % (m["sample"], num(b))]),
+                land([a.n, lor([b.n, "(= %s 0.0)" % num(b)])])]
+        return lor(alts)
+    return _agg_eq(a, b)
+
+
+def _agg_eq(a, b):
     """original aggregate a vs DP aggregate b: a SUM / AVG over no row is NULL in SQL, the DP rewriting reports 0 (it must not
     reveal emptiness): NULL on the original side is matched by NULL or 0 on the DP side"""
     if a.ty in ("i64", "f64") and b.ty in ("i64", "f64"):
@@ -84,6 +101,8 @@ def build_task(t):
         RD = symrel.eval_rel(ctx, clean, db, memo)
         RN = symrel.eval_rel(ctx, t["clean_nc"], db, memo) if t.get("clean_nc") is not None else None
         RO = symrel.eval_rel(ctx, orig, db, {})
+        MOMENTS.clear()
+        MOMENTS.update(ctx.cache.get("moments", {}))
     except exprsem.Unsupported as ex:
         return dict(unsupported=str(ex)[:50])
     samekey = lambda a, b: land([num_eq(a.cells[k], b.cells[k]) for k in kc])
@@ -196,6 +215,9 @@ def main():
             sqlrun.load(con, tj, dbm)
             n1, dp_rows = sqlrun.run(con, c01.sqlite_fix(info["rendered"]))
             n0, or_rows = sqlrun.run(con, c01.sqlite_fix(info["rendered_orig"]))
+            # variance / deviation: the data's population moment is accepted as well as the sample moment
+            pop_sql = re.sub(r"\bVAR\(", "VAR_POP(", re.sub(r"\bSTDDEV\(", "STDDEV_POP(", c01.sqlite_fix(info["rendered_orig"])))
+            or_rows_pop = sqlrun.run(con, pop_sql)[1] if pop_sql != c01.sqlite_fix(info["rendered_orig"]) else None
         except Exception as ex:
             ck.inconclusive("SQLite replay failed for `%s` (%s): %s" % (info["sql"], info["pu"], str(ex)[:200]))
             continue
@@ -204,11 +226,13 @@ def main():
         proj = lambda names, row: [row[names.index(c)] for c in cols]
         dpp = [proj(n1, row) for row in dp_rows]
         orp = [proj(n0, row) for row in or_rows]
+        orp_pop = [proj(n0, row) for row in or_rows_pop] if or_rows_pop is not None else None
         nk = len(info["kc"])
         problems = []
-        for a in orp:
-            if not any(all(tol(x, y) for x, y in zip(a, b)) for b in dpp):
-                problems.append("original row %s has no equal row in the DP result %s" % (a, dpp))
+        for ai, a in enumerate(orp):
+            alts = [a] + ([orp_pop[ai]] if orp_pop is not None and ai < len(orp_pop) else [])
+            if not any(all(tol(x, y) for x, y in zip(a_, b)) for b in dpp for a_ in alts):
+                problems.append("original row %s%s has no equal row in the DP result %s" % (a, (" (population moments: %s)" % alts[1]) if len(alts) > 1 else "", dpp))
         for b in dpp:
             if not any(all(tol(x, y) for x, y in zip(a[:nk], b[:nk])) for a in orp):
                 if any(v not in (None, 0, 0.0) and abs(float(v)) > 1e-6 for v in b[nk:]):
@@ -227,7 +251,7 @@ def main():
         ck.inconclusive("no witness is satisfiable: vacuous run")
     cov = dict(
         exploration=getattr(ck, "budget", None), programs=stats["programs"], disagreements_checked=disagreements, refused_by_rewriter=stats["refused"], skipped_unsupported=stats["unsupported"], skipped_key_release=stats["tau_filtered"],
-        layouts=len(lays), bounds=dict(rows_per_table=K, outside=["more than %d rows per table / per unit" % K, "VAR / STD (the reassembly is a known finding of the design, not yet encoded)", "queries whose keys are released by thresholding (C04)", "float rounding (reals)"]),
+        layouts=len(lays), bounds=dict(rows_per_table=K, outside=["more than %d rows per table / per unit" % K, "queries whose keys are released by thresholding (C04)", "float rounding (reals)"]),
         evaluations=len(queries), distinct_nontrivial=len(set(q["script"] for q in queries)),
     )
     return ck.finish(cov, assumptions=["noise neutralised structurally: every sigma * <Random-dependent> product replaced by 0", "DpParameters with multiplicity share 1: the multiplicity estimate min(100, size * share) equals the table size bound K, so a unit owning all K rows stays within the multiplicity the clip bound allows",
